@@ -16,6 +16,7 @@ SHARDS = {
     "urwid/display/escape.py:KeyqueueTrie.read_sgrmouse_info": (8, 4),
     "urwid/display/escape.py:KeyqueueTrie.get_recurse": (4, 4),
     "urwid/display/escape.py:process_keyqueue": (4, 4),
+    "urwid/display/_raw_display_base.py:Screen.get_input#after-a-resize": (8, 10),
 }
 
 # Proofs that take minutes: verified by `--tier thorough` only (quick: bounded stand-in decides these functions).
